@@ -77,7 +77,9 @@ def combine_nodesets(set1, set2, nodeOffset):
             newSet[key] = set1[key]
     if set2!=None:
         for key in set2:
-            newSet[key] = set2[key] + nodeOffset
+            val = set2[key] + nodeOffset
+            # equal names in both meshes: keep the members of both
+            newSet[key] = np.concatenate((newSet[key], val)) if key in newSet else val
     return newSet
 
 
@@ -90,7 +92,12 @@ def combine_sidesets(set1, set2, elemOffset):
     if set2!=None:
         for key in set2:
             val = set2[key]
-            newSet[key] = val.at[:,0].add(elemOffset) if len(val)>0 else np.array([])
+            val = val.at[:,0].add(elemOffset) if len(val)>0 else np.array([])
+            # equal names in both meshes: keep the members of both
+            if key in newSet and len(newSet[key])>0 and len(val)>0:
+                newSet[key] = np.concatenate((newSet[key], val), axis=0)
+            elif key not in newSet or len(val)>0:
+                newSet[key] = val
     return newSet
 
 
@@ -103,8 +110,9 @@ def combine_blocks(set1, set2, elemOffset):
         newSet[key] = val
 
     for key in set2:
-        val = set2[key]
-        newSet[key] = val + elemOffset
+        val = set2[key] + elemOffset
+        # equal names in both meshes: keep the elements of both
+        newSet[key] = np.concatenate((newSet[key], val)) if key in newSet else val
     return newSet
 
 
